@@ -260,6 +260,12 @@ func VH_C19_Boundary() {
 		vhEncodeAndCheck(&e, small, 1, 1, 8, Depth16, ColorTypeNRGBA, "prev/")
 	}
 	vhEncodeAndCheck(&e, pix, w, h, stride, depth, ct, "boundary/")
+	if vParam("DIRTY") == 1 {
+		// reuse after an image that needed several chunks: the start of the buffer was reused for
+		// pixel data, so the next image depends on init restoring every header byte
+		next := vBytes("next", 6)
+		vhEncodeAndCheck(&e, next, 2, 2, 3, Depth8, ColorTypeGray, "next/")
+	}
 	vReach("boundary/done")
 }
 
